@@ -9,8 +9,21 @@
 //! every run `model-compared` or `model-na:too-large`, so the evidence shows how many runs were model-compared.
 //!
 //! The request is self-contained (structured configuration, FASTA records, spectra, planted
-//! peptides); the harness renders JSON / FASTA / MGF text from it into a scratch directory outside
+//! peptides); the harness renders JSON / FASTA / MGF or mzML text from it into a scratch directory outside
 //! /repo and /verif, runs the binary there and removes the directory afterwards.
+//!
+//! Optional trailing tokens (absent in older request lines = defaults):
+//!   <prefilter> <chunk>
+//!   <lfq> <peak_scoring 0..3> <integration 0|1> <f64 spectral_angle> <f32 ppm_tolerance> <combine_charge_states>
+//!   <tmt_level> <tmt_sn>
+//!   [nfiles { <format 0=MGF 1=mzML 2=mzML.gz> <style bits: 1 = 64-bit m/z, 2 = 64-bit intensity, 4 = zlib, 8 = time in minutes>
+//!             [n f32 ion-injection-time per MS2 spectrum]
+//!             [n extra spectra { <ms level 1|3> <id> <f32 rt seconds> (0 | 1 <spectrumRef> <f32 selected-ion m/z>)
+//!                                <f32 ion injection time> (0 | 1 <f32 noise>) [n (mz, intensity)] }] }]
+//!   [n { <file> <peptide> <exact 0|1> }]   LFQ claims: planted peptide with a clean MS1 isotope envelope in that file
+//!                                  (exact = the envelope is exactly sage's own theoretical distribution)
+//! Reply: ok <tsv rows> <pin rows> <fragment rows> [n tmt rows { filename scannr f32(ion_injection_time) [n f32] }]
+//!        (0 | 1 [n file-column header] [n lfq rows { peptide charge proteins f32(q) f64(score) f64(angle) [n f64] }])
 use super::Info;
 use crate::proto::{Case, Out, Rng, Tier, Toks};
 use sage_core::database::Builder;
@@ -26,7 +39,12 @@ pub const INFO: Info = Info {
            shared peptides, palindromes) x enzyme (trypsin, trypsin/P off, Lys-C, Asp-N, semi, mc 0-2) x static/variable \
            mods x ppm|Da precursor tolerance x isotope errors x internal|FASTA decoys x report_psms x chimera x pin x \
            annotate x batch size; spectra = full b/y ladders of database peptides (+noise, isotope-shifted precursors, \
-           charge annotated or not); non-trivial = the run reported at least 2 PSM rows; distinct by request",
+           charge annotated or not); spectrum files written as MGF, mzML or mzML.gz (32/64-bit arrays, zlib, time in \
+           seconds/minutes, ion injection times, MS1 and MS3 spectra), mixed within a run; TMT at MS2 or MS3 level (MS3 \
+           reporter scans referencing their MS2 spectrum, constant power-of-two noise arrays with sn); LFQ with random \
+           lfq_settings and MS1 isotope envelopes of the planted peptides; two directed runs (more in thorough) of ~240 \
+           spectra of distinct target peptides plus a weak decoy class, so that 1% peptide-level FDR is reached and \
+           lfq.tsv has rows; non-trivial = the run reported at least 2 PSM rows; distinct by request",
     serial: true,
 };
 
@@ -70,6 +88,55 @@ pub struct Cfg {
     /// `database.prefilter` with `prefilter_chunk_size` (0 = let sage choose)
     pub prefilter: bool,
     pub prefilter_chunk: usize,
+    pub lfq: Lfq,
+    /// `quant.tmt_settings`
+    pub tmt_level: u8,
+    pub tmt_sn: bool,
+}
+
+/// `quant.lfq` + `quant.lfq_settings`
+#[derive(Clone, Debug)]
+pub struct Lfq {
+    pub on: bool,
+    /// 0 RetentionTime, 1 SpectralAngle, 2 Intensity, 3 Hybrid
+    pub peak_scoring: u8,
+    /// 0 Apex, 1 Sum
+    pub integration: u8,
+    pub spectral_angle: f64,
+    pub ppm: f32,
+    pub combine: bool,
+}
+
+impl Default for Lfq {
+    fn default() -> Self {
+        Lfq { on: false, peak_scoring: 3, integration: 1, spectral_angle: 0.7, ppm: 5.0, combine: true }
+    }
+}
+
+/// a spectrum that is not searched: MS1 (LFQ signal) or MS3 (TMT reporter scan of an MS2 spectrum); mzML files only
+#[derive(Clone, Debug)]
+pub struct Extra {
+    pub level: u8,
+    pub title: String,
+    pub rt_sec: f32,
+    /// (spectrumRef, selected ion m/z)
+    pub pref: Option<(String, f32)>,
+    pub inj: f32,
+    /// a noise array holding this value for every peak (a power of two, so that S/N division is exact)
+    pub noise: Option<f32>,
+    pub peaks: Vec<(f32, f32)>,
+}
+
+/// how one spectrum file is written
+#[derive(Clone, Debug, Default)]
+pub struct FileFmt {
+    /// 0 = MGF, 1 = mzML, 2 = mzML.gz
+    pub format: u8,
+    /// bit 0: 64-bit m/z array, bit 1: 64-bit intensity array, bit 2: zlib, bit 3: scan start time in minutes
+    pub style: u8,
+    /// ion injection time of the MS2 spectra (mzML only; MGF has none = 0)
+    pub inj: Vec<f32>,
+    pub extras: Vec<Extra>,
 }
 
 #[derive(Clone, Debug)]
@@ -93,6 +160,10 @@ pub struct Request {
     pub fasta: Vec<(String, String)>,
     pub files: Vec<Vec<Spec>>,
     pub planted: Vec<Planted>,
+    /// one entry per file (empty = every file MGF)
+    pub fmts: Vec<FileFmt>,
+    /// (file, peptide): planted peptide with a clean MS1 envelope in that file (LFQ must quantify it there)
+    pub lfq_planted: Vec<(usize, String, bool)>,
     /// generator-side prediction (not on the wire): the Lean driver will not run the composed pipeline model on
     /// this run because its list-based database / index build would be too slow (`model-na:too-large`)
     pub model_too_large: bool,
@@ -112,6 +183,12 @@ pub fn build_cost(digest_lens: &[usize], nvar: usize, max_var: usize) -> usize {
             1 + if max_var >= 2 { sites * sites / 2 + sites } else { sites }
         })
         .sum()
+}
+
+/// cost of the model's searches (a page access of the list-based index is linear in the fragment count)
+pub const SEARCH_LIMIT: usize = 8_000_000;
+pub fn search_cost(nspectra: usize, nfrags: usize) -> usize {
+    nspectra * nfrags
 }
 
 pub fn index_cost(nfrags: usize, bucket: usize) -> usize {
@@ -177,7 +254,45 @@ pub fn encode(r: &Request) -> String {
     }
     // optional trailing tokens (absent in older request lines = false / 0)
     o.b(c.prefilter).n(c.prefilter_chunk);
+    o.b(c.lfq.on).n(c.lfq.peak_scoring).n(c.lfq.integration).f64(c.lfq.spectral_angle).f32(c.lfq.ppm).b(c.lfq.combine);
+    o.n(c.tmt_level).b(c.tmt_sn);
+    o.n(r.fmts.len());
+    for f in &r.fmts {
+        o.n(f.format).n(f.style).n(f.inj.len());
+        for x in &f.inj {
+            o.f32(*x);
+        }
+        o.n(f.extras.len());
+        for e in &f.extras {
+            o.n(e.level).s(&e.title).f32(e.rt_sec);
+            match &e.pref {
+                Some((r, mz)) => o.n(1).s(r).f32(*mz),
+                None => o.n(0),
+            };
+            o.f32(e.inj);
+            match e.noise {
+                Some(x) => o.n(1).f32(x),
+                None => o.n(0),
+            };
+            o.n(e.peaks.len());
+            for (mz, int) in &e.peaks {
+                o.f32(*mz).f32(*int);
+            }
+        }
+    }
+    o.n(r.lfq_planted.len());
+    for (f, p, e) in &r.lfq_planted {
+        o.n(*f).s(p).b(*e);
+    }
     o.finish()
+}
+
+pub fn file_name(r: &Request, i: usize) -> String {
+    match r.fmts.get(i).map(|f| f.format).unwrap_or(0) {
+        0 => format!("file{}.mgf", i),
+        1 => format!("file{}.mzML", i),
+        _ => format!("file{}.mzML.gz", i),
+    }
 }
 
 fn dec_tol(t: &mut Toks) -> Option<(u8, f32, f32)> {
@@ -235,15 +350,46 @@ pub fn decode(t: &mut Toks) -> Option<Request> {
         Some(p) => (p, t.usize()?),
         None => (false, 0),
     };
+    let mut lfq = Lfq::default();
+    let (mut tmt_level, mut tmt_sn) = (2u8, false);
+    let mut fmts: Vec<FileFmt> = Vec::new();
+    let mut lfq_planted = Vec::new();
+    if let Some(on) = t.bool() {
+        lfq = Lfq { on, peak_scoring: t.usize()? as u8, integration: t.usize()? as u8, spectral_angle: t.f64()?, ppm: t.f32()?, combine: t.bool()? };
+        tmt_level = t.usize()? as u8;
+        tmt_sn = t.bool()?;
+        fmts = t.list(|t| {
+            Some(FileFmt {
+                format: t.usize()? as u8,
+                style: t.usize()? as u8,
+                inj: t.list(|t| t.f32())?,
+                extras: t.list(|t| {
+                    Some(Extra {
+                        level: t.usize()? as u8,
+                        title: t.string()?,
+                        rt_sec: t.f32()?,
+                        pref: t.opt(|t| Some((t.string()?, t.f32()?)))?,
+                        inj: t.f32()?,
+                        noise: t.opt(|t| t.f32())?,
+                        peaks: t.list(|t| Some((t.f32()?, t.f32()?)))?,
+                    })
+                })?,
+            })
+        })?;
+        lfq_planted = t.list(|t| Some((t.usize()?, t.string()?, t.bool()?)))?;
+    }
     Some(Request {
         cfg: Cfg {
             cleave, restrict, cterm, semi, mc, min_len, max_len, min_mass, max_mass, statics, vars, max_var,
             decoy_tag, gen_decoys, ptol, ftol, iso, z, report_psms, chimera, min_peaks, max_peaks, min_matched,
             max_frag_charge, deisotope, annotate, pin, predict_rt, batch, bucket, min_ion_index, tmt, override_charge, prefilter, prefilter_chunk,
+            lfq, tmt_level, tmt_sn,
         },
         fasta,
         files,
         planted,
+        fmts,
+        lfq_planted,
         model_too_large: false,
     })
 }
@@ -285,10 +431,22 @@ pub fn database_json(c: &Cfg, fasta_path: &str) -> serde_json::Value {
 }
 
 pub fn config_json(c: &Cfg, fasta_path: &str, spectra_paths: &[String], outdir: &str) -> serde_json::Value {
-    let quant = match c.tmt {
+    let mut quant = match c.tmt {
         0 => serde_json::json!({}),
-        n => serde_json::json!({"tmt": format!("Tmt{}", n), "tmt_settings": {"level": 2, "sn": false}}),
+        n => serde_json::json!({"tmt": format!("Tmt{}", n), "tmt_settings": {"level": c.tmt_level, "sn": c.tmt_sn}}),
     };
+    if c.lfq.on {
+        quant["lfq"] = serde_json::json!(true);
+        let scoring = ["RetentionTime", "SpectralAngle", "Intensity", "Hybrid"][(c.lfq.peak_scoring as usize).min(3)];
+        let integration = ["Apex", "Sum"][(c.lfq.integration as usize).min(1)];
+        quant["lfq_settings"] = serde_json::json!({
+            "peak_scoring": scoring,
+            "integration": integration,
+            "spectral_angle": c.lfq.spectral_angle,
+            "ppm_tolerance": c.lfq.ppm,
+            "combine_charge_states": c.lfq.combine,
+        });
+    }
     serde_json::json!({
         "quant": quant,
         "database": database_json(c, fasta_path),
@@ -341,6 +499,118 @@ pub fn mgf_text(specs: &[Spec]) -> String {
     s
 }
 
+fn xml_attr(v: &str) -> String {
+    v.replace('&', "&amp;").replace('<', "&lt;").replace('>', "&gt;").replace('"', "&quot;")
+}
+
+fn zlib(b: &[u8]) -> Vec<u8> {
+    let mut e = flate2::write::ZlibEncoder::new(Vec::new(), flate2::Compression::default());
+    e.write_all(b).unwrap();
+    e.finish().unwrap()
+}
+
+fn gzip(b: &[u8]) -> Vec<u8> {
+    let mut e = flate2::write::GzEncoder::new(Vec::new(), flate2::Compression::default());
+    e.write_all(b).unwrap();
+    e.finish().unwrap()
+}
+
+fn binary_array(values: &[f32], wide: bool, compress: bool, kind: &str) -> String {
+    let mut raw = Vec::new();
+    for v in values {
+        if wide {
+            raw.extend_from_slice(&(*v as f64).to_le_bytes());
+        } else {
+            raw.extend_from_slice(&v.to_le_bytes());
+        }
+    }
+    let payload = if compress { zlib(&raw) } else { raw };
+    let b64 = base64::encode(&payload);
+    let (acc, name) = match kind {
+        "mz" => ("MS:1000514", "m/z array"),
+        "int" => ("MS:1000515", "intensity array"),
+        _ => ("MS:1002744", "non-standard data array"),
+    };
+    format!(
+        "<binaryDataArray encodedLength=\"{}\"><cvParam cvRef=\"MS\" accession=\"{}\" name=\"{}\" value=\"\"/>\
+         <cvParam cvRef=\"MS\" accession=\"{}\" name=\"compression\" value=\"\"/>\
+         <cvParam cvRef=\"MS\" accession=\"{}\" name=\"{}\" value=\"\"/><binary>{}</binary></binaryDataArray>\n",
+        b64.len(),
+        if wide { "MS:1000523" } else { "MS:1000521" },
+        if wide { "64-bit float" } else { "32-bit float" },
+        if compress { "MS:1000574" } else { "MS:1000576" },
+        acc,
+        name,
+        b64
+    )
+}
+
+#[allow(clippy::too_many_arguments)]
+fn mzml_spectrum(index: usize, id: &str, level: u8, rt_sec: f32, inj: f32, prec: Option<(Option<&str>, f32, Option<u8>)>,
+                 noise: Option<f32>, peaks: &[(f32, f32)], style: u8) -> String {
+    let mut s = String::new();
+    s.push_str(&format!("<spectrum index=\"{}\" id=\"{}\" defaultArrayLength=\"{}\">\n", index, xml_attr(id), peaks.len()));
+    s.push_str(&format!("<cvParam cvRef=\"MS\" accession=\"MS:1000511\" name=\"ms level\" value=\"{}\"/>\n", level));
+    s.push_str("<cvParam cvRef=\"MS\" accession=\"MS:1000127\" name=\"centroid spectrum\" value=\"\"/>\n");
+    let (tval, tunit, tname) = if style & 8 != 0 { (rt_sec / 60.0, "UO:0000031", "minute") } else { (rt_sec, "UO:0000010", "second") };
+    s.push_str(&format!(
+        "<scanList count=\"1\"><scan><cvParam cvRef=\"MS\" accession=\"MS:1000016\" name=\"scan start time\" value=\"{}\" unitCvRef=\"UO\" unitAccession=\"{}\" unitName=\"{}\"/>\
+         <cvParam cvRef=\"MS\" accession=\"MS:1000927\" name=\"ion injection time\" value=\"{}\"/></scan></scanList>\n",
+        tval, tunit, tname, inj
+    ));
+    if let Some((r, mz, z)) = prec {
+        s.push_str("<precursorList count=\"1\"><precursor");
+        if let Some(r) = r {
+            s.push_str(&format!(" spectrumRef=\"{}\"", xml_attr(r)));
+        }
+        s.push_str(&format!("><selectedIonList count=\"1\"><selectedIon><cvParam cvRef=\"MS\" accession=\"MS:1000744\" name=\"selected ion m/z\" value=\"{}\"/>", mz));
+        if let Some(z) = z {
+            s.push_str(&format!("<cvParam cvRef=\"MS\" accession=\"MS:1000041\" name=\"charge state\" value=\"{}\"/>", z));
+        }
+        s.push_str("</selectedIon></selectedIonList></precursor></precursorList>\n");
+    }
+    let mzs: Vec<f32> = peaks.iter().map(|p| p.0).collect();
+    let ints: Vec<f32> = peaks.iter().map(|p| p.1).collect();
+    s.push_str(&format!("<binaryDataArrayList count=\"{}\">\n", if noise.is_some() { 3 } else { 2 }));
+    s.push_str(&binary_array(&mzs, style & 1 != 0, style & 4 != 0, "mz"));
+    s.push_str(&binary_array(&ints, style & 2 != 0, style & 4 != 0, "int"));
+    if let Some(n) = noise {
+        s.push_str(&binary_array(&vec![n; peaks.len()], false, style & 4 != 0, "noise"));
+    }
+    s.push_str("</binaryDataArrayList>\n</spectrum>\n");
+    s
+}
+
+/// indexless mzML: MS2 spectra (selected ion m/z, optional charge state), MS1 / MS3 extras, in scan-time order
+pub fn mzml_text(specs: &[Spec], fmt: &FileFmt) -> String {
+    // (rt, kind order, xml-producing closure index)
+    let mut items: Vec<(f32, usize, usize)> = Vec::new();
+    for (i, sp) in specs.iter().enumerate() {
+        items.push((sp.rt_sec, 1, i));
+    }
+    for (i, e) in fmt.extras.iter().enumerate() {
+        items.push((e.rt_sec, if e.level == 1 { 0 } else { 2 }, specs.len() + i));
+    }
+    items.sort_by(|a, b| a.0.total_cmp(&b.0).then(a.1.cmp(&b.1)).then(a.2.cmp(&b.2)));
+    let mut body = String::new();
+    for (index, (_, _, k)) in items.iter().enumerate() {
+        if *k < specs.len() {
+            let sp = &specs[*k];
+            let inj = fmt.inj.get(*k).copied().unwrap_or(0.0);
+            body.push_str(&mzml_spectrum(index, &sp.title, 2, sp.rt_sec, inj, Some((None, sp.pepmz, sp.charge)), None, &sp.peaks, fmt.style));
+        } else {
+            let e = &fmt.extras[*k - specs.len()];
+            let prec = e.pref.as_ref().map(|(r, mz)| (Some(r.as_str()), *mz, None));
+            body.push_str(&mzml_spectrum(index, &e.title, e.level, e.rt_sec, e.inj, prec, e.noise, &e.peaks, fmt.style));
+        }
+    }
+    format!(
+        "<?xml version=\"1.0\" encoding=\"utf-8\"?>\n<mzML xmlns=\"http://psi.hupo.org/ms/mzml\" version=\"1.1.0\">\n<run id=\"run\">\n<spectrumList count=\"{}\">\n{}</spectrumList>\n</run>\n</mzML>\n",
+        items.len(),
+        body
+    )
+}
+
 fn sage_bin() -> String {
     std::env::var("VERIF_SAGE_BIN").unwrap_or_else(|_| {
         let exe = std::env::current_exe().unwrap();
@@ -353,6 +623,10 @@ fn sage_bin() -> String {
 struct Scratch(std::path::PathBuf);
 impl Drop for Scratch {
     fn drop(&mut self) {
+        if std::env::var("VERIF_KEEP_SCRATCH").is_ok() {
+            eprintln!("scratch kept: {}", self.0.display());
+            return;
+        }
         let _ = std::fs::remove_dir_all(&self.0);
     }
 }
@@ -423,8 +697,13 @@ pub fn run(r: &Request) -> String {
     std::fs::write(&fasta_path, fasta_text(&r.fasta)).unwrap();
     let mut paths = Vec::new();
     for (i, f) in r.files.iter().enumerate() {
-        let p = dir.join(format!("file{}.mgf", i));
-        std::fs::write(&p, mgf_text(f)).unwrap();
+        let p = dir.join(file_name(r, i));
+        let fmt = r.fmts.get(i).cloned().unwrap_or_default();
+        match fmt.format {
+            0 => std::fs::write(&p, mgf_text(f)).unwrap(),
+            1 => std::fs::write(&p, mzml_text(f, &fmt)).unwrap(),
+            _ => std::fs::write(&p, gzip(mzml_text(f, &fmt).as_bytes())).unwrap(),
+        }
         paths.push(p.to_string_lossy().to_string());
     }
     let outdir = dir.join("out");
@@ -523,10 +802,20 @@ pub fn run(r: &Request) -> String {
     // tmt.tsv: filename, scannr, then one column per channel
     if r.cfg.tmt != 0 {
         match read_table(&outdir.join("tmt.tsv")) {
-            None => return "err:no-tmt".into(),
+            // the file is only written when there is at least one quantified spectrum
+            None => {
+                o.n(0);
+            }
             Some((header, rows)) => {
                 let fi = header.iter().position(|h| h == "filename");
                 let si = header.iter().position(|h| h == "scannr");
+                let ii = match header.iter().position(|h| h == "ion_injection_time") {
+                    Some(i) => i,
+                    None => return "err:missing-column:tmt".into(),
+                };
+                if header.len() < 3 || header[0] != "filename" || header[1] != "scannr" || header[2] != "ion_injection_time" {
+                    return "err:tmt-column-order".into();
+                }
                 let chans: Vec<usize> = header.iter().enumerate().filter(|(_, h)| h.starts_with("tmt_")).map(|(i, _)| i).collect();
                 let (fi, si) = match (fi, si) {
                     (Some(a), Some(b)) => (a, b),
@@ -537,7 +826,12 @@ pub fn run(r: &Request) -> String {
                     if row.len() != header.len() {
                         return "err:short-row:tmt".into();
                     }
-                    o.s(&row[fi]).s(&row[si]).n(chans.len());
+                    o.s(&row[fi]).s(&row[si]);
+                    match row[ii].parse::<f32>() {
+                        Ok(v) => o.f32(v),
+                        Err(_) => return "err:bad-cell:tmt".into(),
+                    };
+                    o.n(chans.len());
                     for &c in &chans {
                         match row[c].parse::<f32>() {
                             Ok(v) => o.f32(v),
@@ -549,6 +843,54 @@ pub fn run(r: &Request) -> String {
         }
     } else {
         o.n(0);
+    }
+    // lfq.tsv: peptide, charge, proteins, q_value, score, spectral_angle, then one column per input file
+    match read_table(&outdir.join("lfq.tsv")) {
+        None => {
+            o.n(0);
+        }
+        Some((header, rows)) => {
+            let fixed = ["peptide", "charge", "proteins", "q_value", "score", "spectral_angle"];
+            for (i, name) in fixed.iter().enumerate() {
+                if header.get(i).map(|h| h.as_str()) != Some(*name) {
+                    return format!("err:missing-column:lfq:{}", name);
+                }
+            }
+            o.n(1);
+            o.n(header.len() - fixed.len());
+            for h in &header[fixed.len()..] {
+                o.s(h);
+            }
+            o.n(rows.len());
+            for row in &rows {
+                if row.len() != header.len() {
+                    return "err:short-row:lfq".into();
+                }
+                o.s(&row[0]);
+                match row[1].parse::<i64>() {
+                    Ok(v) => o.n(v),
+                    Err(_) => return "err:bad-cell:lfq:charge".into(),
+                };
+                o.s(&row[2]);
+                match row[3].parse::<f32>() {
+                    Ok(v) => o.f32(v),
+                    Err(_) => return "err:bad-cell:lfq:q_value".into(),
+                };
+                for c in [4usize, 5] {
+                    match row[c].parse::<f64>() {
+                        Ok(v) => o.f64(v),
+                        Err(_) => return "err:bad-cell:lfq:score".into(),
+                    };
+                }
+                o.n(row.len() - fixed.len());
+                for cell in &row[fixed.len()..] {
+                    match cell.parse::<f64>() {
+                        Ok(v) => o.f64(v),
+                        Err(_) => return "err:bad-cell:lfq:intensity".into(),
+                    };
+                }
+            }
+        }
     }
     o.finish()
 }
@@ -637,21 +979,87 @@ fn random_cfg(rng: &mut Rng) -> Cfg {
         override_charge: rng.chance(1, 4),
         prefilter: false,
         prefilter_chunk: 0,
+        lfq: if rng.chance(1, 4) {
+            Lfq {
+                on: true,
+                peak_scoring: rng.below(4) as u8,
+                integration: rng.below(2) as u8,
+                spectral_angle: *rng.pick(&[0.5f64, 0.7, 0.8, 0.95]),
+                ppm: *rng.pick(&[5.0f32, 10.0, 20.0]),
+                combine: rng.chance(1, 2),
+            }
+        } else {
+            Lfq::default()
+        },
+        tmt_level: if rng.chance(1, 3) { 3 } else { 2 },
+        tmt_sn: rng.chance(1, 3),
     }
 }
 
+/// shape of the spectrum files of a generated run
+#[derive(Clone, Copy)]
+pub struct GenOpts {
+    /// force every file to this format (0 MGF, 1 mzML, 2 mzML.gz); None = random mix
+    pub format: Option<u8>,
+    pub nfiles: Option<usize>,
+    /// a run in which peptide-level FDR can reach 1%: (almost) every spectrum is the full ladder of a distinct TARGET
+    /// peptide; every 12th is a DECOY peptide with a thinned, weak ladder (the decoy class the KDE / q-values need)
+    pub scale: bool,
+}
+
 pub fn random_request(rng: &mut Rng, nspec: usize) -> Option<Request> {
-    random_request_with(rng, nspec, &|_| {})
+    random_request_opts(rng, nspec, &|_| {}, GenOpts { format: None, nfiles: None, scale: false })
+}
+
+/// the legacy shape: MGF files only, no LFQ, MS2-level TMT
+pub fn random_request_with(rng: &mut Rng, nspec: usize, tweak: &dyn Fn(&mut Cfg)) -> Option<Request> {
+    random_request_opts(
+        rng,
+        nspec,
+        &|c| {
+            c.lfq = Lfq::default();
+            c.tmt_level = 2;
+            c.tmt_sn = false;
+            tweak(c)
+        },
+        GenOpts { format: Some(0), nfiles: None, scale: false },
+    )
+}
+
+/// isotope envelope of `pep` at charge `z` around `rt_sec`: five MS1 scans within ±0.08 s, three isotope peaks each,
+/// intensities = theoretical distribution (the second isotope 8% low, so that the cosine stays clear of 1.0)
+fn ms1_envelope(pep: &sage_core::peptide::Peptide, z: u8, rt_sec: f32, k: usize, exact: bool) -> Vec<Extra> {
+    let (mut carbon, mut sulfur) = (0u16, 0u16);
+    for r in pep.sequence.iter() {
+        let c = sage_core::mass::composition(*r);
+        carbon += c.carbon;
+        sulfur += c.sulfur;
+    }
+    let dist = sage_core::isotopes::peptide_isotopes(carbon, sulfur);
+    let shape = [0.25f32, 0.75, 1.0, 0.75, 0.25];
+    let offs = [-0.08f32, -0.04, 0.0, 0.04, 0.08];
+    (0..5)
+        .map(|j| {
+            let peaks: Vec<(f32, f32)> = (0..3)
+                .map(|i| {
+                    let mz = (pep.monoisotopic + i as f32 * NEUTRON) / z as f32 + PROTON;
+                    let tweak = if i == 1 && !exact { 0.92 } else { 1.0 };
+                    (mz, 100000.0 * shape[j] * dist[i] * tweak)
+                })
+                .collect();
+            Extra { level: 1, title: format!("ms1={}_{}", 1000 + k, j), rt_sec: rt_sec + offs[j], pref: None, inj: 0.0, noise: None, peaks }
+        })
+        .collect()
 }
 
 /// `tweak` adjusts the configuration BEFORE the database is built and the spectra are synthesised
-pub fn random_request_with(rng: &mut Rng, nspec: usize, tweak: &dyn Fn(&mut Cfg)) -> Option<Request> {
+pub fn random_request_opts(rng: &mut Rng, nspec: usize, tweak: &dyn Fn(&mut Cfg), opts: GenOpts) -> Option<Request> {
     let mut cfg = random_cfg(rng);
     tweak(&mut cfg);
-    let nprot = 2 + rng.below(5);
+    let nprot = if opts.scale { 16 } else { 2 + rng.below(5) };
     let mut fasta: Vec<(String, String)> = Vec::new();
     for i in 0..nprot {
-        let len = 20 + rng.below(60);
+        let len = if opts.scale { 80 + rng.below(20) } else { 20 + rng.below(60) };
         fasta.push((format!("sp|P{:05}|PROT{}", i, i), random_protein(rng, len)));
     }
     // a shared peptide between two proteins
@@ -698,11 +1106,54 @@ pub fn random_request_with(rng: &mut Rng, nspec: usize, tweak: &dyn Fn(&mut Cfg)
     }
     let model_too_large = build_cost(&digest_lens, nvar, cfg.max_var.max(1)) > COST_LIMIT
         || index_cost(db.fragments.len(), cfg.bucket) > INDEX_LIMIT;
-    let nfiles = 1 + rng.below(3);
+    let nfiles = opts.nfiles.unwrap_or(1 + rng.below(3));
     let mut files: Vec<Vec<Spec>> = vec![Vec::new(); nfiles];
+    let mut fmts: Vec<FileFmt> = (0..nfiles)
+        .map(|_| {
+            let format = match opts.format {
+                Some(f) => f,
+                None => match rng.below(20) {
+                    0..=8 => 0,
+                    9..=16 => 1,
+                    _ => 2,
+                },
+            };
+            FileFmt { format, style: rng.below(16) as u8, inj: Vec::new(), extras: Vec::new() }
+        })
+        .collect();
+    if !fmts.iter().any(|f| f.format != 0) {
+        // MS3-level TMT and LFQ need MS3 / MS1 spectra, which only mzML files carry
+        cfg.tmt_level = 2;
+    }
+    let mut lfq_planted: Vec<(usize, String, bool)> = Vec::new();
+    let mut used_peps: std::collections::HashSet<usize> = std::collections::HashSet::new();
+    let mut pair_keys: std::collections::HashSet<String> = std::collections::HashSet::new();
     let mut planted = Vec::new();
     for k in 0..nspec {
-        let pep = &db.peptides[rng.below(db.peptides.len())];
+        // with LFQ every spectrum gets its own peptide (a peptide seen at two retention times has no single apex)
+        let mut pix = rng.below(db.peptides.len());
+        let want_decoy = opts.scale && k % 12 == 11;
+        if cfg.lfq.on || opts.scale {
+            let mut tries = 0;
+            while (used_peps.contains(&pix) || (opts.scale && db.peptides[pix].decoy != want_decoy)) && tries < 200 {
+                pix = rng.below(db.peptides.len());
+                tries += 1;
+            }
+            if used_peps.contains(&pix) || (opts.scale && db.peptides[pix].decoy != want_decoy) {
+                continue;
+            }
+        }
+        if opts.scale {
+            // a target and its own decoy must not both be identified: the pair competes as ONE peptide-level entity,
+            // and if every decoy loses its pair the decoy class is empty (NaN posterior errors, every q-value 1)
+            let p = &db.peptides[pix];
+            let key = if p.decoy && cfg.gen_decoys { p.reverse().to_string() } else { p.to_string() };
+            if !pair_keys.insert(key) {
+                continue;
+            }
+        }
+        let fresh = used_peps.insert(pix);
+        let pep = &db.peptides[pix];
         let z = 2 + rng.below(2) as u8;
         let iso_k = if cfg.iso.0 == cfg.iso.1 { 0.0 } else { rng.range(cfg.iso.0 as i64, cfg.iso.1 as i64) as f32 };
         let mass = pep.monoisotopic + iso_k * NEUTRON;
@@ -712,6 +1163,22 @@ pub fn random_request_with(rng: &mut Rng, nspec: usize, tweak: &dyn Fn(&mut Cfg)
             for ion in IonSeries::new(pep, kind) {
                 let inten = *rng.pick(&[50.0f32, 100.0, 100.0, 200.0, 400.0]);
                 peaks.push((ion.monoisotopic_mass + PROTON, inten));
+            }
+        }
+        if opts.scale {
+            // a continuous spread of match quality in both classes (completely separated classes make the
+            // peptide-level KDE fragile — C14's recorded density-underflow finding): targets keep 85-100% of their
+            // ladder, decoys 30-50%, at reduced intensity
+            let keep = if want_decoy { 0.3 + 0.2 * rng.unit() } else { 0.85 + 0.15 * rng.unit() };
+            let n0 = peaks.len();
+            let mut kept: Vec<(f32, f32)> = Vec::new();
+            for (i, p) in peaks.iter().enumerate() {
+                if ((i + 1) as f64 * keep).floor() > (i as f64 * keep).floor() {
+                    kept.push(if want_decoy { (p.0, 25.0) } else { *p });
+                }
+            }
+            if kept.len() >= 4 && kept.len() <= n0 {
+                peaks = kept;
             }
         }
         for _ in 0..rng.below(12) {
@@ -786,17 +1253,79 @@ pub fn random_request_with(rng: &mut Rng, nspec: usize, tweak: &dyn Fn(&mut Cfg)
                 }
             }
         }
+        let rt_sec = 60.0 + 30.0 * k as f32;
+        let is_mzml = fmts[file].format != 0;
+        fmts[file].inj.push(if is_mzml { *rng.pick(&[0.0f32, 12.5, 50.0, 118.25]) } else { 0.0 });
+        if is_mzml && cfg.lfq.on && !pep.decoy {
+            // VERIF_C01_EXACT_ENVELOPE=1 (used once, to produce findings/C01-lfq-exact-envelope.req): the envelope is
+            // exactly sage's theoretical distribution; the cosine then rounds above 1.0 for many peptides
+            let exact = std::env::var("VERIF_C01_EXACT_ENVELOPE").is_ok();
+            fmts[file].extras.extend(ms1_envelope(pep, z, rt_sec, k, exact));
+            // claim: quantified in this file — the rank-1 claim holds, the peptide occurs once in the run, the
+            // envelope matches the theoretical distribution (normalised spectral angle ~0.96) and the threshold is
+            // at most 0.8; that the PSM passes 1% peptide-level FDR is checked by the driver on the results table
+            if unique && fresh && cfg.lfq.spectral_angle <= 0.8 {
+                lfq_planted.push((file, pep.to_string(), exact));
+            }
+        } else if is_mzml && rng.chance(1, 3) {
+            // an MS1 survey scan that nothing uses (must be ignored by the search)
+            fmts[file].extras.push(Extra {
+                level: 1,
+                title: format!("ms1={}", 1000 + k),
+                rt_sec: rt_sec - 0.5,
+                pref: None,
+                inj: 5.0,
+                noise: None,
+                peaks: vec![(400.25, 1000.0), (pepmz, 5000.0), (900.5, 250.0)],
+            });
+        }
+        if is_mzml && cfg.tmt != 0 && cfg.tmt_level == 3 && rng.chance(3, 4) {
+            // the MS3 reporter scan of this MS2 spectrum: reporter peaks on (most of) the channels, other intensities
+            // than in the MS2 spectrum; with `sn` a constant noise array (a power of two: S/N division is exact)
+            let plex = match cfg.tmt {
+                6 => sage_core::tmt::Isobaric::Tmt6,
+                10 => sage_core::tmt::Isobaric::Tmt10,
+                11 => sage_core::tmt::Isobaric::Tmt11,
+                16 => sage_core::tmt::Isobaric::Tmt16,
+                _ => sage_core::tmt::Isobaric::Tmt18,
+            };
+            let mut pk: Vec<(f32, f32)> = Vec::new();
+            for &m in plex.reporter_masses() {
+                if rng.chance(1, 6) {
+                    continue;
+                }
+                let inten = *rng.pick(&[48.0f32, 96.0, 192.0, 384.0, 1024.0]);
+                pk.push((m, inten));
+                if rng.chance(1, 4) {
+                    pk.push((m * (1.0 + 3.0e-6), inten / 4.0));
+                }
+            }
+            pk.push((300.5, 64.0));
+            pk.sort_by(|a, b| a.0.total_cmp(&b.0));
+            fmts[file].extras.push(Extra {
+                level: 3,
+                title: format!("ms3={}", 1000 + k),
+                rt_sec: rt_sec + 0.25,
+                pref: Some((title.clone(), 400.0 + k as f32)),
+                inj: *rng.pick(&[0.0f32, 22.0, 100.5]),
+                noise: if rng.chance(1, 2) { Some(*rng.pick(&[2.0f32, 4.0, 0.5])) } else { None },
+                peaks: pk,
+            });
+        }
         if unique {
             planted.push(Planted { file, title, peptide: pep.to_string() });
         }
     }
-    for f in files.iter_mut() {
+    for (fi, f) in files.iter_mut().enumerate() {
         if f.is_empty() {
             // every file needs at least one spectrum block
             f.push(Spec { title: "scan=1".into(), pepmz: 500.0, charge: Some(2), rt_sec: 1.0, peaks: vec![(200.0, 1.0), (300.0, 1.0)] });
+            fmts[fi].inj.push(0.0);
         }
     }
-    Some(Request { cfg, fasta, files, planted, model_too_large })
+    let model_too_large =
+        model_too_large || search_cost(files.iter().map(|f| f.len()).sum(), db.fragments.len()) > SEARCH_LIMIT;
+    Some(Request { cfg, fasta, files, planted, fmts, lfq_planted, model_too_large })
 }
 
 /// directed shapes that every run must contain (index = which one)
@@ -825,7 +1354,65 @@ fn directed(rng: &mut Rng, which: usize) -> Option<Request> {
             c.deisotope = false;
             c.ptol = (1, -30.0, 30.0);
         })?,
-        _ => random_request(rng, 9)?,
+        // LFQ on a single mzML file: every planted target has a clean MS1 isotope envelope (claims are made)
+        4 => random_request_opts(
+            rng,
+            240,
+            &|c| {
+                c.lfq = Lfq { on: true, peak_scoring: 3, integration: 1, spectral_angle: 0.7, ppm: 5.0, combine: true };
+                c.chimera = false;
+                c.deisotope = false;
+                c.tmt = 0;
+                c.semi = false;
+                c.gen_decoys = true;
+                c.predict_rt = false; // sage switches it on itself when lfq is requested
+                c.report_psms = 1;
+                c.mc = 2;
+                c.vars = vec![("M".to_string(), vec![15.9949f32])];
+                c.max_var = 1;
+                c.iso = (0, 0);
+                c.ptol = (0, -10.0, 10.0);
+                c.override_charge = false;
+                c.bucket = 8192;
+            },
+            GenOpts { format: Some(1), nfiles: Some(1), scale: true },
+        )?,
+        // LFQ over a mix of MGF / mzML / mzML.gz files, charge states kept apart, apex integration
+        5 => random_request_opts(
+            rng,
+            240,
+            &|c| {
+                c.lfq = Lfq { on: true, peak_scoring: 1, integration: 0, spectral_angle: 0.5, ppm: 10.0, combine: false };
+                c.deisotope = false;
+                c.tmt = 0;
+                c.batch = 2;
+                c.mc = 2;
+                c.semi = false;
+                c.chimera = false;
+                c.bucket = 8192;
+                // keeps the Lean pipeline model's run of ~200 spectra within a few seconds
+                c.ptol = (0, -15.0, 15.0);
+                c.report_psms = 1;
+                c.vars = vec![("M".to_string(), vec![15.9949f32])];
+                c.max_var = 1;
+                c.iso = (0, 0);
+                c.override_charge = false;
+            },
+            GenOpts { format: None, nfiles: Some(3), scale: true },
+        )?,
+        // MS3-level TMT with signal-to-noise: reporter scans reference their MS2 spectrum
+        6 => random_request_opts(
+            rng,
+            9,
+            &|c| {
+                c.tmt = 11;
+                c.tmt_level = 3;
+                c.tmt_sn = true;
+                c.lfq = Lfq::default();
+            },
+            GenOpts { format: Some(1), nfiles: Some(2), scale: false },
+        )?,
+        _ => random_request_with(rng, 9, &|_| {})?,
     };
     match which {
         // more files than the batch size, file count not a multiple of it (last batch is short)
@@ -886,6 +1473,17 @@ fn directed(rng: &mut Rng, which: usize) -> Option<Request> {
             }
             // rank-1 claims only hold for the stronger peptide; keep them (its peaks are 3x as intense)
         }
+        5 => {
+            // make sure the three formats are all present
+            let want = [0u8, 1, 2];
+            if r.fmts.len() != 3 {
+                return None;
+            }
+            let have: Vec<u8> = r.fmts.iter().map(|f| f.format).collect();
+            if !want.iter().all(|w| have.contains(w)) {
+                return None;
+            }
+        }
         _ => {}
     }
     Some(r)
@@ -896,15 +1494,38 @@ pub fn gen(rng: &mut Rng, tier: Tier, emit: &mut dyn FnMut(Case)) {
     let mut made = 0;
     let mut tries = 0;
     let mut next_directed = 0usize;
-    while made < n + 4 && tries < (n + 4) * 6 {
+    const NDIRECTED: usize = 7;
+    while made < n + NDIRECTED && tries < (n + NDIRECTED) * 12 {
         tries += 1;
         let nspec = 4 + rng.below(if tier == Tier::Quick { 8 } else { 30 });
-        let req = if next_directed < 4 {
+        let req = if next_directed < NDIRECTED {
             let r = directed(rng, next_directed);
             if r.is_some() {
                 next_directed += 1;
             }
             r
+        } else if tier != Tier::Quick && made % 25 == 10 {
+            // thorough only: further runs large enough for 1% peptide-level FDR, with random LFQ settings and formats
+            let (ps, ig, sa, ppm, comb) = (rng.below(4) as u8, rng.below(2) as u8, *rng.pick(&[0.5f64, 0.7, 0.8]), *rng.pick(&[5.0f32, 10.0, 20.0]), rng.chance(1, 2));
+            random_request_opts(
+                rng,
+                220,
+                &move |c| {
+                    c.lfq = Lfq { on: true, peak_scoring: ps, integration: ig, spectral_angle: sa, ppm, combine: comb };
+                    c.deisotope = false;
+                    c.tmt = 0;
+                    c.mc = 2;
+                    c.semi = false;
+                    c.chimera = false;
+                    c.bucket = 8192;
+                    c.report_psms = 1;
+                    c.vars = vec![("M".to_string(), vec![15.9949f32])];
+                    c.max_var = 1;
+                    c.iso = (0, 0);
+                    c.override_charge = false;
+                },
+                GenOpts { format: None, nfiles: None, scale: true },
+            )
         } else {
             random_request(rng, nspec)
         };
@@ -928,6 +1549,18 @@ pub fn gen(rng: &mut Rng, tier: Tier, emit: &mut dyn FnMut(Case)) {
                 .tag_if(c.report_psms > 1, "report_psms>1")
                 .tag_if(r.files.len() > 1, "multi-file")
                 .tag_if(c.tmt != 0, "tmt")
+                .tag_if(c.tmt != 0 && c.tmt_level == 3, "tmt-ms3-level")
+                .tag_if(c.tmt != 0 && c.tmt_level == 3 && r.fmts.iter().any(|f| f.extras.iter().any(|e| e.level == 3)), "tmt-ms3-spectra")
+                .tag_if(c.tmt != 0 && c.tmt_sn && r.fmts.iter().any(|f| f.extras.iter().any(|e| e.level == c.tmt_level && e.noise.is_some())), "tmt-signal-to-noise")
+                .tag_if(r.fmts.iter().any(|f| f.format != 0), "mzml-input")
+                .tag_if(r.fmts.iter().any(|f| f.format == 2), "mzml-gz")
+                .tag_if(r.fmts.iter().any(|f| f.format != 0) && r.fmts.iter().any(|f| f.format == 0), "mixed-mgf-mzml")
+                .tag_if(r.fmts.iter().any(|f| f.format != 0 && f.style & 4 != 0), "mzml-zlib")
+                .tag_if(r.fmts.iter().any(|f| f.format != 0 && f.style & 3 != 0), "mzml-64bit")
+                .tag_if(r.fmts.iter().any(|f| f.extras.iter().any(|e| e.level == 1)), "ms1-spectra")
+                .tag_if(c.lfq.on, "lfq")
+                .tag_if(c.lfq.on && !c.lfq.combine, "lfq-charge-states-apart")
+                .tag_if(!r.lfq_planted.is_empty(), "lfq-planted-quantified")
                 .tag_if(c.override_charge, "override-precursor-charge")
                 .tag_if(c.prefilter, "prefilter")
                 .tag_if(r.files.len() > c.batch && r.files.len() % c.batch != 0, "short-last-batch");
